@@ -90,7 +90,7 @@ func (e *Env) candidates(want []string) ([]*disruption.Candidate, error) {
 	for _, n := range want {
 		w[n] = true
 	}
-	cands, err := disruption.GetCandidates(e.Ctx, e.W.Cluster, e.Client, e.Rec, e.W.Clock, e.W.CP,
+	cands, err := disruption.GetCandidates(e.Ctx, e.W.Cluster, e.Client, e.Rec, e.W.Clock, e.CP,
 		func(_ context.Context, c *disruption.Candidate) bool { return w[c.Name()] }, disruption.GracefulDisruptionClass, e.Queue)
 	if err != nil {
 		return nil, err
@@ -317,6 +317,10 @@ func genWorld(r *rand.Rand, t core.Tier) (*world.Scenario, *Ext) {
 	if r.Float64() < 0.15 {
 		ext.UntrackedAntiPods = 1 + r.IntN(2)
 	}
+	// NodeOverlays: the instance types reach the scheduler through the overlay decorator
+	if r.Float64() < 0.2 {
+		ext.Overlays = genOverlays(r, s)
+	}
 	// CapacityBuffers: virtual pods from the long-lived cache join the pods of every simulation; half of these worlds also
 	// configure cluster-default spread constraints
 	if r.Float64() < 0.2 {
@@ -419,6 +423,7 @@ func simLabels(raw json.RawMessage, impl any) []string {
 	}
 	l = append(l, draLabels(in.Ext.DRA)...)
 	l = append(l, bufferLabels(in.Ext.Buffers, in.Ext.DefaultSpread)...)
+	l = append(l, overlayLabels(in.Ext.Overlays)...)
 	for _, r := range in.Runs {
 		l = append(l, "mode:"+r.Mode)
 		if r.Mark != "" {
@@ -501,7 +506,12 @@ func shrinkSim(raw json.RawMessage) []any {
 	}
 	if len(in.Ext.PDBs) > 0 || len(in.Ext.Volumes) > 0 || in.Ext.DefaultSpread || len(in.Ext.InvalidPods) > 0 || in.Ext.UntrackedAntiPods > 0 {
 		x := in
-		x.Ext = Ext{Volumes: map[string]int{}, DRA: in.Ext.DRA, Buffers: in.Ext.Buffers, DefaultSpread: in.Ext.DefaultSpread && len(in.Ext.Buffers) > 0}
+		x.Ext = Ext{Volumes: map[string]int{}, DRA: in.Ext.DRA, Buffers: in.Ext.Buffers, Overlays: in.Ext.Overlays, DefaultSpread: in.Ext.DefaultSpread && len(in.Ext.Buffers) > 0}
+		out = append(out, x)
+	}
+	for _, c := range core.ShrinkList(in.Ext.Overlays) {
+		x := in
+		x.Ext.Overlays = c
 		out = append(out, x)
 	}
 	for _, c := range core.ShrinkList(in.Ext.Buffers) {
